@@ -26,9 +26,10 @@ ASSUMPTIONS = [
     "a race that makes no progress for 400 virtual seconds (only the driver's 1s housekeeping tick) is a stall; hitting the step / virtual-time budget is inconclusive",
     "tasks of an element with completed-by may be cut short or skipped (the statement only protects tasks of OTHER elements); the completing task itself must finish",
 ]
-REQUIRED_CLAUSES = ["no-stall", "completes-exactly-once", "step-barrier", "every-allocation-runs-once", "iterations-not-cut-short", "completed-by-stops-others", "complete-sent-at-most-once"]
+REQUIRED_CLAUSES = ["no-stall", "completes-exactly-once", "step-barrier", "every-allocation-runs-once", "iterations-not-cut-short", "completed-by-stops-others", "completed-by-ends-element", "complete-sent-at-most-once"]
+OPTIONAL_CLAUSES = ["complete-not-lost"]
 REQUIRED_FEATURES = {"parallel": 5, "completed-by-name": 3, "completed-by-any": 3, "over-commit": 3, "multi-host": 3, "multi-worker": 5, "adversarial-delays": 3, "empty-worker-cores": 2}
-BUDGET = {"quick": {"cases": 900, "seconds": 42}, "thorough": {"cases": 20000, "seconds": 700}}
+BUDGET = {"quick": {"cases": 900, "seconds": 34}, "thorough": {"cases": 20000, "seconds": 700}}
 EPS = 1e-6
 
 
@@ -50,6 +51,8 @@ def gen_task(rng, name, role, unit_time):
         base = max(base, 0.05)
     if rng.random() < 0.25 and role != "long":
         t["target_throughput"] = rng.choice([1, 5, 50])
+    if role == "long" and "iterations" in t:
+        t["iterations"] = max(60, min(t["iterations"], int(1500 / max(base, 0.01))))  # keep the natural end within ~1500 virtual seconds
     t["requests"] = [[{"wire": rng.choice([1, 1, 2])}]]
     t["svc"] = {"mode": rng.choice(["const", "const", "mixed", "per-client", "bursty"]), "base": base, "seed": rng.randint(0, 1 << 30), "spread": rng.choice([0.1, 1.0, 5.0])}
     return t
@@ -145,7 +148,8 @@ def reference(elements):
             if t["iterations"] is not None:
                 expected = (t["warmup_iterations"] or 0) + t["iterations"]
             info["tasks"][t["name"]] = {"clients": t["clients"], "may_cut": may_cut, "requests_per_client": expected,
-                                        "physical": [(i, (start + i) % max_clients) for i in range(t["clients"])]}
+                                        "physical": [(i, (start + i) % max_clients) for i in range(t["clients"])],
+                                        "rows": sorted({(start + i) // max_clients for i in range(t["clients"])}), "first_slot": start}
             start += t["clients"]
         info["over_commit"] = start > max_clients
         out.append(info)
@@ -209,7 +213,10 @@ def check_trace(ctx, case, tr, problems, feats, expect_success=True):
                 if len(got) > 1:
                     problems.append(("every-allocation-runs-once", f"client index {idx} of task {name} was executed {len(got)} times", None))
                 elif len(got) == 0 and not ti["may_cut"]:
-                    problems.append(("every-allocation-runs-once", f"client index {idx} of task {name} (element {ei}) never ran", None))
+                    row = (ti["first_slot"] + idx) // max_clients
+                    detail = {"completing_task": info["completed_by"] == name, "task_rows": ti["rows"], "row": row, "over_commit": info["over_commit"],
+                              "other_client_of_task_ran": any(runs.get((name, j)) for j, _ in ti["physical"])}
+                    problems.append(("every-allocation-runs-once", f"client index {idx} of task {name} (element {ei}, row {row} of rows {ti['rows']}) never ran", detail))
                 elif got and got[0]["client"] != physical:
                     problems.append(("every-allocation-runs-once", f"client index {idx} of task {name} ran on client {got[0]['client']}, allocated to client {physical}", None))
                 if got and ti["requests_per_client"] is not None and not ti["may_cut"] and expect_success:
@@ -228,13 +235,22 @@ def check_trace(ctx, case, tr, problems, feats, expect_success=True):
             continue
         lo, hi = span[ei][0], span[ei][1]
         next_start = min((span[e][0] for e in span if e > ei), default=float("inf"))
-        ccts = [d for d in tr.cct if lo - EPS <= d[0] < next_start]
-        per_worker = {}
-        for vt, wid in ccts:
-            per_worker.setdefault(wid, []).append(vt)
+        ccts = [d for d in tr.cct if lo - 60.0 <= d[0] < next_start]
+        per_worker, lost = {}, {}
+        for vt, wid, at_jp, start_driving in ccts:
+            if at_jp and start_driving:
+                lost.setdefault(wid, []).append(vt)  # arrived between Drive and the wake-up that starts this element: rally ignores it
+            elif not at_jp and vt >= lo - EPS:
+                per_worker.setdefault(wid, []).append(vt)
         ctx.clause("complete-sent-at-most-once")
         if any(len(v) > 1 for v in per_worker.values()):
             problems.append(("complete-sent-at-most-once", f"element {ei}: CompleteCurrentTask delivered {max(len(v) for v in per_worker.values())} times to one worker within one step", None))
+        for wid, vts in lost.items():
+            ctx.clause("complete-not-lost")
+            after = [e for e in tr.rec.logical if task_el.get(e["task"]) == ei and info["tasks"][e["task"]]["may_cut"] and worker_of_client.get(e["client"]) == wid and e["vt_begin"] > vts[0]]
+            if after and wid not in per_worker:
+                problems.append(("complete-not-lost", f"element {ei}: worker {wid} was told to complete at vt={vts[0]:.4f} while it waited at the join point for its (delayed) start; it ignored the "
+                                 f"request and then ran {len(after)} requests of {sorted({e['task'] for e in after})} to their natural end", {"lost_cct_at_joinpoint_with_pending_start": True}))
         # After its worker was told, a client may finish the request in flight and - because the executor only looks at the flag
         # after a request - issue at most ONE further request (e.g. the one it was waiting to send while throttled).
         late = {}
@@ -253,6 +269,23 @@ def check_trace(ctx, case, tr, problems, feats, expect_success=True):
                 problems.append(("completed-by-stops-others", f"element {ei}: client {client} began {len(begins)} further requests of {task} (at vt={begins[0]:.4f}, {begins[1]:.4f}, ...) although its "
                                  f"worker {wid} was told to complete the current task at vt={told:.4f}", None))
                 break
+        # --- the element really ends once the completing task is done (bounded progress in virtual time)
+        el_runs = [r for r in tr.rec.runs if task_el.get(r["task"]) == ei and r["vt_end"] is not None]
+        done_runs = [r for r in el_runs if (cb == "any" or r["task"] == cb)]
+        if done_runs:
+            t_done = min(r["vt_end"] for r in done_runs) if cb == "any" else max(r["vt_end"] for r in done_runs)
+            wake = 0.5 if case.get("test_mode") else 5.0
+            s_max = max([e.get("vt_finish", e["vt_begin"]) - e["vt_begin"] for e in tr.rec.logical if task_el.get(e["task"]) == ei] + [0.0])  # longest logical request
+            bound = 3 * wake + 3 + 6 * k.max_delay + 3 * s_max + 3 * case.get("wakeup_jitter", 0.0) + 2.0
+            for r in el_runs:
+                if not info["tasks"][r["task"]]["may_cut"]:
+                    continue
+                ctx.clause("completed-by-ends-element")
+                if r["vt_end"] > t_done + bound:
+                    wid = worker_of_client.get(r["client"])
+                    problems.append(("completed-by-ends-element", f"element {ei}: {cb!r} was done at vt={t_done:.3f} but client {r['client']} (worker {wid}) kept running {r['task']} until "
+                                     f"vt={r['vt_end']:.3f} (bound {bound:.1f}s: wake-ups, message delays, requests in flight)", {"worker_had_lost_cct": wid in lost}))
+                    break
         if info["over_commit"]:
             feats.add("over-commit")
     return
@@ -291,7 +324,12 @@ def instrument(k, tr):
             tr.workers[msg.worker_id] = [a["client_id"] for a in msg.client_allocations.allocations]
             tr.worker_addr[r.addr.n] = msg.worker_id
         elif n == "CompleteCurrentTask":
-            tr.cct.append((kernel.clock.now, tr.worker_addr.get(r.addr.n)))
+            w = r.inst
+            try:
+                at_jp = bool(w.at_joinpoint())
+            except Exception:
+                at_jp = None
+            tr.cct.append((kernel.clock.now, tr.worker_addr.get(r.addr.n), at_jp, bool(w.start_driving)))
 
     k.observers.append(observer)
     return lambda: None
@@ -324,7 +362,11 @@ def features_of(case):
 def one_case(ctx, rng, explicit=None):
     case = explicit or gen_case(rng)
     feats = features_of(case)
+    import time as _t
+
+    case = dict(case, wall_deadline=_t.monotonic() + max(15.0, ctx.time_left() + 10.0))
     tr = race.run_race(case, ctx.scratch, instrument=instrument)
+    case.pop("wall_deadline")
     finish_trace(tr)
     problems = []
     if tr.budget:
@@ -345,8 +387,12 @@ def one_case(ctx, rng, explicit=None):
         ctx.sample({"case": slim(case), "observed": {"requests": len(tr.sim.log), "workers": tr.workers, "virtual_seconds": round(tr.kernel.clock.now, 2),
                                                       "kernel_steps": tr.kernel.steps, "to_race_control": [m[1] for m in tr.to_racecontrol]}},
                    tag="+".join(sorted(feats & {"parallel", "completed-by-name", "completed-by-any", "multi-host"})) or "sequential")
-    for clause, msg, detail in problems[:2]:
-        ctx.violation(clause, {"case": case, "detail": detail}, msg)
+    seen = {}
+    for clause, msg, detail in problems:
+        key = (clause, classify({"clause": clause, "witness": {"detail": detail}}))
+        seen[key] = seen.get(key, 0) + 1
+        if seen[key] <= 1:  # one witness per (clause, mechanism) and case; every mechanism is reported
+            ctx.violation(clause, {"case": case, "detail": detail}, msg)
     return problems
 
 
@@ -366,6 +412,14 @@ def run_shard(ctx):
 
 
 def classify(v):
+    d = (v.get("witness") or {}).get("detail") or {}
+    if v["clause"] == "every-allocation-runs-once" and d.get("completing_task") and d.get("over_commit") and len(d.get("task_rows", [])) >= 2 and d.get("row", 0) > d["task_rows"][0] and d.get("other_client_of_task_ran"):
+        # a client of the completed-by task that sits in a later row of an over-committed element than another client of the same task
+        return "completing-task-clients-in-later-rows-skipped"
+    if v["clause"] == "completed-by-ends-element" and d.get("worker_had_lost_cct"):
+        return "complete-current-task-ignored-between-drive-and-start"
+    if v["clause"] == "complete-not-lost" and d.get("lost_cct_at_joinpoint_with_pending_start"):
+        return "complete-current-task-ignored-between-drive-and-start"
     return None
 
 
